@@ -1,0 +1,14 @@
+//go:build verif
+
+package rtmp
+
+// VerifIsClosed reports whether the connection of a started push session has
+// been closed (Dispose or write error); same zero-length-write probe as
+// PullSession.VerifIsClosed.
+func (s *PushSession) VerifIsClosed() bool {
+	if s.core.conn == nil {
+		return false
+	}
+	_, err := s.core.conn.Write(nil)
+	return err != nil
+}
